@@ -479,10 +479,11 @@ class RegistrationResource(Resource):
         self.reg.update_params(msg.remote, query)
 
     async def render_post(self, request):
-        self._update_params(request)
-
+        # checked first: a request answered with 4.xx must not have side effects
         if request.opt.content_format is not None or request.payload:
             raise error.BadRequest("Registration update with body not specified")
+
+        self._update_params(request)
 
         return aiocoap.Message(code=aiocoap.CHANGED)
 
